@@ -150,6 +150,38 @@ def collect_sites(fx, cg):
     return sites, where, len(reach), len(roots)
 
 
+def _unbounded(e, depth=0):
+    """is the iterator expression e built from an unbounded range (`n..`) through adaptors that keep it unbounded?"""
+    e = strip(e)
+    if depth > 12 or not isinstance(e, dict):
+        return False
+    if e.get("k") == "Struct" and "RangeFrom" in str(e.get("res", {}).get("adt", "")) + str(e.get("ty", "")):
+        return True
+    if e.get("k") == "MethodCall":
+        m = e.get("method")
+        if m in ("map", "filter", "inspect", "enumerate", "skip", "step_by", "peekable", "by_ref", "fuse", "cloned", "copied", "into_iter", "iter", "skip_while", "filter_map", "cycle"):
+            return _unbounded(e["recv"], depth + 1) or (m == "cycle")
+        if m == "chain":
+            return _unbounded(e["recv"], depth + 1) or any(_unbounded(a, depth + 1) for a in e.get("args", []))
+    if e.get("k") == "Call" and (callee_generic(e) or "").endswith(("iter::repeat", "iter::repeat_with", "iter::successors")) is True:
+        return (callee_generic(e) or "").endswith(("iter::repeat", "iter::repeat_with"))
+    return False
+
+
+def _infinite_searches(fx, fn, kind):
+    """number of `.unwrap()` / `.expect(..)` calls in fn whose receiver is find / next / position / find_map on an unbounded iterator"""
+    bs = fx.bodies.get(fn, [])
+    if len(bs) != 1:
+        return 0
+    n = 0
+    for node in walk(bs[0]["body"]):
+        if node.get("k") == "MethodCall" and node.get("method") == kind:
+            r = strip(node["recv"])
+            if r.get("k") == "MethodCall" and r.get("method") in ("find", "next", "position", "find_map") and _unbounded(r["recv"]):
+                n += 1
+    return n
+
+
 def rule_sites(ctx):
     fx = ctx.facts
     cg = callgraph.CallGraph(fx)
@@ -193,6 +225,12 @@ def rule_sites(ctx):
             ctx.ok("PANIC-TAB", "moved:%s|%s" % (f, kind), "%s:%s" % (f, l),
                    "%d site(s) of kind `%s` in %s: as many discharged sites of that kind left their listed functions in the same file (code motion / helper extraction)" % (extra, kind, fn), nontrivial=False)
             extra = 0
+        if extra > 0 and kind in ("unwrap", "expect") and _infinite_searches(fx, fn, kind) >= n:
+            ctx.ok("PANIC-TAB", "inf:%s|%s" % (fn, kind), "%s:%s" % (f, l),
+                   "%d `%s` site(s) in %s take the result of find / next / position on an iterator built from an unbounded range (`n..`): it is never None" % (n, kind, fn), nontrivial=False)
+            extra = 0
+            if ent is None:
+                continue
         if ent is None or ent[0] == 0:
             if extra > 0:
                 ctx.bad("PANIC-TAB", "%s|%s" % (fn, kind), "%s:%s" % (f, l), "%d reachable panic site(s) of kind `%s` in %s are in no discharge table" % (n, kind, fn))
